@@ -183,7 +183,8 @@ func genLabelProgOpt(t *rapid.T, mode int, org int64, withFar bool, dollarNames 
 			}
 			p.Items = append(p.Items, Item{Kind: ItStmt, Text: ftext, Cls: "farjmp"})
 		case k == 8 && rapid.Bool().Draw(t, "memref"): // the label as the address of a memory operand
-			mt := rapid.SampledFrom([]string{"MOV CX,[%s]", "MOV AX,[%s]", "MOV [%s],AL", "MOV [%s],DX", "ADD BYTE [%s],1", "CMP WORD [%s],0x1234", "PUSH WORD [%s]", "MOV EDX,[%s]", "MOV [%s],EAX", "SUB SI,[%s]", "MOV BYTE [%s],7"}).Draw(t, "memtmpl")
+			mt := rapid.SampledFrom([]string{"MOV CX,[%s]", "MOV AX,[%s]", "MOV [%s],AL", "MOV [%s],DX", "ADD BYTE [%s],1", "CMP WORD [%s],0x1234", "PUSH WORD [%s]", "MOV EDX,[%s]", "MOV [%s],EAX", "SUB SI,[%s]", "MOV BYTE [%s],7",
+				"SAR WORD [%s],1", "SHL BYTE [%s],2", "SHR DWORD [%s],3", "NOT WORD [%s]", "AND WORD [%s],0x0f", "XOR [%s],AX", "OR BYTE [%s],1", "POP WORD [%s]", "CMP [%s],CL", "SUB BYTE [%s],1"}).Draw(t, "memtmpl")
 			p.Items = append(p.Items, Item{Kind: ItMarker, Ser: ser}, Item{Kind: ItStmt, Text: fmt.Sprintf(mt, lab), Cls: "ref.mem", Ref: lab, RefAs: "mem", Ser: ser})
 			ser++
 		case k == 8: // LGDT [label]
@@ -504,7 +505,7 @@ func checkLabelProg(pid string, p *Prog) Verdict {
 
 var propC03 = &Prop[Prog]{
 	ID:   "C03",
-	Rule: "programs of 2-14 statements (one in a hundred: 300-1200 statements with 20-300 labels; one in four with [BITS n] switches on the way) from every size class (instructions incl. prefixes/SIB/disp32, DB/DW/DD, RESB, ALIGNB, EQU, INT 3/INT n, branches, LGDT, far JMP) with 1-5 labels at arbitrary positions, each followed by a unique marker; references before and after definition (MOV reg,label; DW/DD label; branches; LGDT [label]; the label as the address of a memory operand of MOV/ADD/SUB/CMP/PUSH; trailing DD table; DW $), names defined as 'name EQU $' and used like labels after their definition, label names that start with '$' (never branched to); ORG from the quantifier's set; oracle: embedded value = origin + marker offset, output length = location counter - origin; non-trivial = accepted, a label with a statement before it, at least one reference; distinct by source text",
+	Rule: "programs of 2-14 statements (one in a hundred: 300-1200 statements with 20-300 labels; one in four with [BITS n] switches on the way) from every size class (instructions incl. prefixes/SIB/disp32, DB/DW/DD, RESB, ALIGNB, EQU, INT 3/INT n, branches, LGDT, far JMP) with 1-5 labels at arbitrary positions, each followed by a unique marker; references before and after definition (MOV reg,label; DW/DD label; branches; LGDT [label]; the label as the address of a memory operand of MOV, the ALU and shift operations, NOT, PUSH and POP; trailing DD table; DW $), names defined as 'name EQU $' and used like labels after their definition, label names that start with '$' (never branched to); ORG from the quantifier's set; oracle: embedded value = origin + marker offset, output length = location counter - origin; non-trivial = accepted, a label with a statement before it, at least one reference; distinct by source text",
 	Gen: func(t *rapid.T) Prog {
 		mode := rapid.SampledFrom([]int{0, 16, 32}).Draw(t, "mode")
 		org := rapid.SampledFrom(orgSet).Draw(t, "org")
@@ -516,31 +517,42 @@ var propC03 = &Prop[Prog]{
 	Check: func(p Prog) Verdict { return checkLabelProg("C03", &p) },
 	Enum: func(tier string, yield func(Prog)) bool {
 		// systematic sweep: statement kind K immediately before a referenced label
-		enumStmtBeforeLabel(yield)
+		enumStmtBeforeLabel(tier, yield)
 		return false
 	},
 }
 
 // enumStmtBeforeLabel: for every catalogue form (first cell of its cross
 // product plus a few others) x both modes x all origins: "K ; lbl: marker ; DD lbl".
-func enumStmtBeforeLabel(yield func(Prog)) {
+func enumStmtBeforeLabel(tier string, yield func(Prog)) {
 	var stmts []struct{ text, cls string }
+	rot := 0
 	for _, f := range allInstForms() {
-		k := 0
-		enumForm(f, func(s sem.Stmt) {
-			// sample the cross product sparsely but deterministically
-			if k%37 == 0 || k < 2 {
-				stmts = append(stmts, struct{ text, cls string }{s.Render(), f.Class})
-			}
-			k++
+		// every boundary immediate / memory shape / absolute address of the form, one register per register slot
+		enumFormReduced(f, &rot, func(s sem.Stmt) {
+			stmts = append(stmts, struct{ text, cls string }{s.Render(), f.Class})
 		})
+		if tier != "quick" {
+			k := 0
+			enumForm(f, func(s sem.Stmt) {
+				// and a sparse, deterministic sample of the full cross product
+				if k%37 == 5 {
+					stmts = append(stmts, struct{ text, cls string }{s.Render(), f.Class})
+				}
+				k++
+			})
+		}
+	}
+	orgs := []int64{-1, 0x7c00, 0xfff0}
+	if tier == "quick" {
+		orgs = []int64{0x7c00}
 	}
 	for _, x := range []string{"DB 1", "DB 1,2,3", `DB "hello"`, "DW 1", "DW 1,2", "DD 1", "DD 1,2", "RESB 0", "RESB 1", "RESB 300", "ALIGNB 4", "ALIGNB 16", "INT 3", "INT 0x10", "RET", "JMP 0x1234", "JE 0x1234", "CALL 0x1234", "JMP DWORD 16:0x1b", "LGDT [0x1234]", "MOV AX,[BX+SI+300]", "MOV AX,[EBX+300]", "MOV EAX,[EBP]", "MOV AL,[EAX+EBX*4]", "MOV AX,[EBX*2+8]", "MOV [EBP+ECX*8],DL", "PUSH 300", "PUSH 0x12345678"} {
 		stmts = append(stmts, struct{ text, cls string }{x, "sweep"})
 	}
 	for _, s := range stmts {
 		for _, mode := range []int{0, 32} {
-			for _, org := range []int64{-1, 0x7c00, 0xfff0} {
+			for _, org := range orgs {
 				p := Prog{Mode: mode, Org: org}
 				p.Items = []Item{
 					{Kind: ItStmt, Text: s.text, Cls: s.cls},
